@@ -4,7 +4,7 @@ import gc
 import random
 import threading
 
-from . import locks, monitors, repo, simdev, transports, vclock
+from . import locks, monitors, repo, simdev, spin, transports, vclock
 
 CLOSING_OPS = {"shell", "exec_out", "root", "list", "stat", "pull", "push", "streaming_shell"}
 
@@ -90,17 +90,25 @@ class Session(object):
         take = kw.pop("take", None)
         vclock.install(self.clock)
         self.core.reset_budget()
-        if self.impl == "sync":
-            out = self._call_sync(name, args, kw, take)
-        else:
-            out = self.loop.run_until_complete(self._call_async(name, args, kw, take))
+        spin.begin_call()
+        try:
+            if self.impl == "sync":
+                out = self._call_sync(name, args, kw, take)
+            else:
+                out = self.loop.run_until_complete(self._call_async(name, args, kw, take))
+        finally:
+            spin.end_call()
         self.history.append((name, out))
         return out
 
     async def acall(self, name, *args, **kw):
         """the same as call() for code that already runs inside this session's event loop (concurrent tasks)"""
         take = kw.pop("take", None)
-        out = await self._call_async(name, args, kw, take)
+        spin.begin_call()
+        try:
+            out = await self._call_async(name, args, kw, take)
+        finally:
+            spin.end_call()
         self.history.append((name, out))
         return out
 
